@@ -223,6 +223,14 @@ def main(tier):
     obs4 = harness("conc", groups)
     for g in groups:
         o = obs4[g["id"]]
+        if o.get("outcome") == "fatal":
+            if "concurrent map" not in o.get("panic", ""):
+                raise Inconclusive("the process died while running group %s: %s" % (g["id"], o.get("panic", "")[:300]))
+            chk.evaluations += 1
+            sig = {"kind": "concurrent", "what": "process died", "readers": "True"}
+            chk.violation("projects and catalogs used from several goroutines (group %s): the process died: %s; frames %s" % (g["id"], o.get("panic", "")[:200], o.get("frames")),
+                          {"kind": "conc_fatal", "group": g, "signature": sig}, sig)
+            continue
         chk.evaluations += o["runs"]
         chk.traces += o["runs"]
         for d in o["diffs"]:
